@@ -294,7 +294,7 @@ def judge(rep, behaviours, trace):
     return res
 
 
-FAMILIES_QUICK = [('MC_MetadataFSM.cfg', 'Sim_MetadataFSM.cfg', 130), ('MC_MetadataFSM_groups.cfg', 'Sim_MetadataFSM_groups.cfg', 130)]
+FAMILIES_QUICK = [('MC_MetadataFSM.cfg', 'Sim_MetadataFSM.cfg', 200), ('MC_MetadataFSM_groups.cfg', 'Sim_MetadataFSM_groups.cfg', 200)]
 FAMILIES_THOROUGH = [('MC_MetadataFSM_thorough.cfg', 'Sim_MetadataFSM.cfg', 1200),
                      ('MC_MetadataFSM_groups_thorough.cfg', 'Sim_MetadataFSM_groups.cfg', 1200)]
 
@@ -350,10 +350,11 @@ def run(rep, tier, seed, replay):
         g = graph.tlc_dump('MC_MetadataFSM.tla', cfg, workers=min(core.NCPU, 8), timeout=1500)
         gb, cv, tt = from_graph(g, 0)
         total += tt
-        if quick:
-            # quick: one behaviour per symmetry class (names of streams/brokers/consumers, partition counts)
+        if quick and os.environ.get('VERIF_C06_SYMMETRY'):
+            # optional budget saver: one behaviour per symmetry class (names of streams/brokers/consumers,
+            # partition counts); the transitions really executed are counted
             gb = one_per_class(gb)
-            cv = len({i for b in gb for i in b['_edges']})     # transitions really executed
+            cv = len({i for b in gb for i in b['_edges']})
         covered += cv
         for b in gb:
             b.pop('_edges', None)
@@ -376,7 +377,7 @@ def run(rep, tier, seed, replay):
     rep.cov['trace_lines_validated'] = tr['validated']
     rep.cov['evaluations'] = len(behaviours) + len(real)
     rep.cov['distinct_nontrivial'] = len({key(b) for b in behaviours if nontrivial(b)})
-    rep.cov['rule'] = ('[quick: one behaviour per symmetry class of the transition covers, simulated behaviours chosen by feature coverage from a 4x pool] behaviours = seeded TLC simulation of two scenario families of MC_MetadataFSM (stream operations; '
+    rep.cov['rule'] = ('[simulated behaviours are chosen by feature coverage from a 4x pool] behaviours = seeded TLC simulation of two scenario families of MC_MetadataFSM (stream operations; '
                        'consumer groups with stream deletion/re-creation), each continued to the end of a started '
                        'recovery, + transition cover of the state graph of MC_MetadataFSM_replay; non-trivial = contains a '
                        'restart and at least two different operations; distinct by hash of the step list')
